@@ -222,6 +222,60 @@ def check_reader(ctx, case):
     return True
 
 
+def check_reader_big(ctx, case):
+    """Files of several MiB (more than a million triangles) with ONE
+    out-of-range triangle index at a chosen relative position (head, middle,
+    tail, last) - and the untouched file, which must be accepted."""
+    from neuroglancer_scripts import mesh as M
+    nv, nt, where = case["nv"], case["nt"], case["where"]
+    rng = np.random.default_rng(case["seed"])
+    verts = rng.normal(0, 10, size=(nv, 3)).astype("<f4")
+    tris = rng.integers(0, nv, size=(nt, 3)).astype("<u4")
+    if where is not None:
+        k = min(nt * 3 - 1, int(where * nt * 3))
+        tris.reshape(-1)[k] = nv + case["seed"] % 3
+    data = struct.pack("<I", nv) + verts.tobytes() + tris.tobytes()
+    try:
+        rv, rt = M.read_precomputed_mesh(io.BytesIO(data))
+    except M.InvalidMeshDataError:
+        if where is None:
+            ctx.fail("valid mesh of %d triangles (%d MiB) rejected" % (
+                nt, len(data) >> 20))
+        return
+    except Exception as exc:
+        ctx.fail("reader raised %s instead of InvalidMeshDataError on a %d "
+                 "MiB file: %s" % (type(exc).__name__, len(data) >> 20, exc))
+    if where is not None:
+        ctx.fail("reader accepted a mesh of %d triangles (%d MiB) whose "
+                 "triangle index number %d (relative position %.2f) is %d, "
+                 "with %d vertices" % (nt, len(data) >> 20, k, where,
+                                       int(tris.reshape(-1)[k]), nv))
+    if not np.array_equal(rt, tris) or not np.array_equal(
+            rv.view("<u4"), verts.view("<u4")):
+        ctx.fail("large valid mesh read back differently")
+
+
+def run_reader_big(ctx, n):
+    wheres = [None, 0.0, 0.5, 0.97, 1.0, 0.26, 0.76]
+    sizes = [(50000, 1200000), (300, 1048577), (70000, 2200000)]
+    k = 0
+    for nv, nt in sizes[:max(1, n)]:
+        for where in wheres:
+            case = {"big_reader": True, "nv": nv, "nt": nt, "where": where,
+                    "seed": ctx.seed + k}
+            k += 1
+            try:
+                check_reader_big(ctx, case)
+            except AssertionError as exc:
+                if type(exc).__name__ != "Violation":
+                    raise
+                ctx.violations.append({"sub": "reader_big", "case": case,
+                                       "message": str(exc)})
+                return
+            ctx.record(case, True, ["invalid" if where is not None
+                                    else "valid"])
+
+
 def run_reader(ctx, n):
     def check(ctx, case):
         deep = check_reader(ctx, case)
@@ -672,6 +726,8 @@ SUBS = [
     Sub("layout", run_layout, check_layout, quick=2500, thorough=160000),
     Sub("layout_large", run_layout_large, check_layout, quick=24,
         thorough=800, shards=6),
+    Sub("reader_big", run_reader_big, check_reader_big, quick=1, thorough=3,
+        shards=1),
     Sub("reader", run_reader, check_reader, quick=4000, thorough=300000),
     Sub("affine", run_affine, check_affine, quick=2500, thorough=160000),
     Sub("convert", run_convert, check_convert, quick=300, thorough=12000),
